@@ -391,6 +391,27 @@ pub fn run(args: &Args) -> ! {
     let d = words(SIGMA2, 1, k2, "Σ2", &mut all);
     done2 = d.or(done2);
 
+    // literal families: the syntax-error checker has its own scanner for string escapes (one message
+    // template per escape kind) and numerals; every escape body / numeral over the characters its branches
+    // test, as the only literal of a statement
+    const ESC: &[&str] = &["0", "2", "5", "9", "x", "u", "{", "}", "z", "q", "a", "F", " "];
+    const NUM: &[&str] = &["0", "1", "9", "x", "e", "p", ".", "_", "f", "+", "u", "l", "i"];
+    let klit = args.tier.pick(3, 4);
+    let mut done_lit = true;
+    for (fam, sigma, pre, post) in [("escape", ESC, "local s = \"\\", "\"\n"), ("numeral", NUM, "local n = ", "\n")] {
+        for ci in 0..CFGS.len() {
+            let (st, d) = par_words(sigma.len(), 1, klit, args.threads, &dl, |w, st| {
+                let text = format!("{pre}{}{post}", word_text(sigma, w));
+                if w.len() == 2 && w[0] == 1 && w[1] == 2 {
+                    st.sample(|| json!({"phase": format!("literal:{fam}"), "cfg": CFGS[ci], "text": text}));
+                }
+                check_text(&text, ci, st, &known, "literal", &extra);
+            });
+            all.merge(st);
+            done_lit &= d == Some(klit);
+        }
+    }
+
     // truncations of std files at every token end
     let stds = std_texts(max_std);
     let mut jobs: Vec<(usize, usize)> = Vec::new();
@@ -422,15 +443,15 @@ pub fn run(args: &Args) -> ! {
     }
 
     rep.rule = format!(
-        "every word of Σ1^≤{k1} (|Σ1|={}) and Σ2^≤{k2} (|Σ2|={}) and every truncation at every token end ({} cuts) of the {} bundled std files of ≤{max_std} bytes (`@meta`/`@diagnostic` replaced by ` meta`/` diagnostic`, same length, so the cuts are diagnosed like user files), each diagnosed as a main-workspace file with the std library loaded, under {{default configuration, every diagnostic code enabled}}. Oracle per diagnostic: start and end are positions of the document (under either the \\n-only or the LSP line model, any character unit), start ≤ end, code is a DiagnosticCode name, severity is one of the four LSP severities, message has no `%{{` / `{{}}` (judged only when the source contains no `%{{` / `{{`); per file: every parse error of the file's syntax tree has a syntax-error/doc-syntax-error diagnostic at the translated range (undecided when the text contains @diagnostic/@meta); no two diagnostics equal in every field. non-trivial = text longer than one byte.",
+        "every word of Σ1^≤{k1} (|Σ1|={}) and Σ2^≤{k2} (|Σ2|={}), every string literal `\"\\<body>\"` with an escape body of ≤{klit} characters over {ESC:?} and every numeral of ≤{klit} characters over {NUM:?} (each as the only literal of a statement), and every truncation at every token end ({} cuts) of the {} bundled std files of ≤{max_std} bytes (`@meta`/`@diagnostic` replaced by ` meta`/` diagnostic`, same length, so the cuts are diagnosed like user files), each diagnosed as a main-workspace file with the std library loaded, under {{default configuration, every diagnostic code enabled}}. Oracle per diagnostic: start and end are positions of the document (under either the \\n-only or the LSP line model, any character unit), start ≤ end, code is a DiagnosticCode name, severity is one of the four LSP severities, message has no `%{{` / `{{}}` (judged only when the source contains no `%{{` / `{{`); per file: every parse error of the file's syntax tree has a syntax-error/doc-syntax-error diagnostic at the translated range (undecided when the text contains @diagnostic/@meta); no two diagnostics equal in every field. non-trivial = text longer than one byte.",
         SIGMA1.len(),
         SIGMA2.len(),
         jobs.len(),
         stds.len()
     );
-    rep.exhaustive = done1 == Some(k1) && done2 == Some(k2) && done3;
+    rep.exhaustive = done1 == Some(k1) && done2 == Some(k2) && done3 && done_lit;
     rep.bounds = json!({"sigma1_k_target": k1, "sigma1_k_completed": done1, "sigma2_k_target": k2, "sigma2_k_completed": done2,
-        "std_files": stds.len(), "std_truncations": jobs.len(), "std_truncations_completed": done3, "configs": CFGS,
+        "literal_families_k": klit, "literal_families_completed": done_lit, "std_files": stds.len(), "std_truncations": jobs.len(), "std_truncations_completed": done3, "configs": CFGS,
         "wall_cap_s": args.wall_cap_s, "wall_cap_hit": dl.was_hit()});
     rep.assumptions = vec![
         "the translated range of a parse error is taken from the document's own offset→position conversion (C22/C23 judge that conversion)".into(),
